@@ -171,7 +171,10 @@ func (w *Writer) encodeEnd() {
 
 func (w *Writer) encodeChar(c uint) {
 	// travel from leaf to root
-	i, j := uint(0), int(0)
+	//
+	// The code is collected in a 64 bit word (most significant bit first): the adaptive tree
+	// can grow deeper than 16 levels, which a 16 bit accumulator would silently truncate.
+	i, j := uint64(0), int(0)
 	k := w.z.prnt[c+_T]
 	for {
 		i >>= 1
@@ -179,14 +182,24 @@ func (w *Writer) encodeChar(c uint) {
 
 		// if node's address is odd-numbered, choose bigger brother node
 		if k&1 != 0 {
-			i += 0x8000
+			i |= 1 << 63
 		}
 
 		if k = w.z.prnt[k]; k == _R {
 			break
 		}
 	}
-	w.putCode(j, i)
+
+	// putCode handles at most 16 bits at a time
+	for j > 0 {
+		n := j
+		if n > 16 {
+			n = 16
+		}
+		w.putCode(n, uint(i>>48)&(0xffff<<uint(16-n)))
+		i <<= uint(n)
+		j -= n
+	}
 	w.z.update(int(c))
 }
 
